@@ -13,7 +13,7 @@ import ast
 
 import re
 
-from ..astutil import calls_in, call_name, where, kw, atoms_of
+from ..astutil import calls_in, call_name, where, kw, atoms_of, atoms_at
 from ..cfg import build_cfg, enclosing_handlers
 from ..dataflow import private_closure
 from ..logic import reach_avoiding
@@ -32,6 +32,9 @@ DECIDED = [
     "DICT-1 the JSON/YAML front ends create one element per key; no guard depends on the content of an entry",
     "PARSE-1 the string and the file front end parse with the same blank-text removing parser",
     "MAP-1 sibling names are counted in separate maps for Sections and Properties; the Property map is reset per Section",
+    "MAP-2 (shared with C17) _change_entity_name records every occurrence of a name: each path stores into the count map",
+    "WALK-3 every v1.0 value element is handed to _handle_value, which inspects every child element (no exit before or inside the scan)",
+    "VAL-3 the list brackets are added exactly when a second value text was joined with a comma (the flag is set where the comma is inserted, nowhere else)",
     "SRC-1 the converter opens its source read-only and writes only to the filename given to write_to_file, after rendering",
 ]
 NOT_DECIDED = ["preservation of the Section tree, the values and the lifted attributes", "numeric suffixes of clashing names",
@@ -291,6 +294,87 @@ def run(prog, rep):
         rep.check("%s.clear()" % pm in unparse(rs.node), "MAP-1", "Property map reset per Section", "ok",
                   "the Property name map is not cleared per Section", rs.where, witness="equal Property names in different Sections get suffixes")
 
+    # ----------------------------------------------------------------- MAP-2
+    count_map_rule(prog, rep, "MAP-2")
+
+    # ---------------------------------------------------------------- WALK-3
+    rep.rule("WALK-3", "_handle_properties: the loop over <property>.iter('value') calls self._handle_value(<value>, ...) on every iteration "
+                       "path, before anything else can end the iteration; _handle_value: its loop over <value>.iter() is reached on every "
+                       "path and contains no return / break")
+    hp = vc.lookup_method("_handle_properties")
+    hv = vc.lookup_method("_handle_value")
+    rep.saw_function(hp)
+    rep.saw_function(hv)
+    def value_loops(g0):
+        return [n for n in g0.nodes if n.kind == "for" and isinstance(n.ast.iter, ast.Call) and isinstance(n.ast.iter.func, ast.Attribute)
+                and n.ast.iter.func.attr in ("iter", "findall", "iterchildren") and n.ast.iter.args and isinstance(n.ast.iter.args[0], ast.Constant)
+                and n.ast.iter.args[0].value == "value"]
+    # the scan of the value elements may live in a private helper of _handle_properties
+    holders = [(h, build_cfg(h)) for h in private_closure(hp)]
+    holders = [(h, g0) for h, g0 in holders if value_loops(g0)] or [(hp, build_cfg(hp))]
+    hp, hg = holders[0]
+    rep.saw_function(hp)
+    vloops = value_loops(hg) if len(holders) == 1 else []
+    rep.check(len(vloops) == 1, "WALK-3", "_handle_properties scans the value elements once", "ok",
+              "_handle_properties has %d loops over the value elements" % len(vloops), hp.where)
+    for lp in vloops:
+        var = lp.ast.target.id if isinstance(lp.ast.target, ast.Name) else "?"
+        calls = set(n.id for n in hg.nodes for root in n.expr_roots() for c in calls_in(root)
+                    if isinstance(c.func, ast.Attribute) and c.func.attr == "_handle_value" and c.args and unparse(c.args[0]) == var)
+        first = [m for k, m in lp.succ if k == "iter"]
+        ok = bool(calls) and bool(first) and (first[0].id in calls or not reach_avoiding(hg, first[0], lp, lambda s0, k0, d0: d0.id in calls,
+                                                                                          skip_kinds=("exc",)))
+        rep.check(ok, "WALK-3", "every value element is handed to _handle_value", "on every iteration path",
+                  "an iteration over the value elements can end without _handle_value(%s, ...): unit / dtype / uncertainty kept on that value "
+                  "are neither lifted to the Property nor logged" % var, where(hp, lp.ast),
+                  witness="a value element that only carries a unit: the unit is lost")
+    vg = build_cfg(hv)
+    scans = [n for n in vg.nodes if n.kind == "for" and isinstance(n.ast.iter, ast.Call) and isinstance(n.ast.iter.func, ast.Attribute)
+             and n.ast.iter.func.attr in ("iter", "iterchildren", "getchildren") and unparse(n.ast.iter.func.value) == hv.params[1]]
+    ok = len(scans) == 1
+    if ok:
+        sc0 = scans[0]
+        ok = all(vg.dominates(sc0, p) for k0, p in vg.exit.pred if k0 != "exc") and \
+            not any(isinstance(y, (ast.Return, ast.Break)) for y in ast.walk(sc0.ast))
+    rep.check(ok, "WALK-3", "_handle_value inspects every child of the value element", "one scan, reached on every path, never left early",
+              "_handle_value can return before (or from inside) its scan of the value's child elements: attributes of such a value are dropped "
+              "without a log entry", hv.where, witness="an empty value element that carries the dtype of the Property")
+
+    # ----------------------------------------------------------------- VAL-3
+    rep.rule("VAL-3", "_handle_properties: let F be the local tested where the joined text is wrapped in '[' ... ']'. Every definition of F is "
+                      "a constant; F = False lies outside the loop over the value elements (once per Property), and F = True is stored exactly "
+                      "on the paths that join a further value text with ',' (same guards)")
+    from ..astutil import template_parts
+
+    def lits(e):
+        return [v for k, v in (template_parts(None, e) or []) if k == "lit"]
+    wraps = [n for n in hg.nodes if n.kind == "stmt" and isinstance(n.ast, ast.Assign) and len(lits(n.ast.value)) >= 2
+             and lits(n.ast.value)[0].startswith("[") and lits(n.ast.value)[-1].endswith("]")]
+    rep.check(len(wraps) == 1, "VAL-3", "one statement adds the list brackets", "ok", "%d statements add list brackets" % len(wraps), hp.where)
+    for w in wraps:
+        flags = [t for t, p, br in atoms_at(hg, w) if p and t.isidentifier()]
+        commas = [n for n in hg.nodes if n.kind == "stmt" and isinstance(n.ast, (ast.AugAssign, ast.Assign))
+                  and any(v0.strip() == "," for v0 in lits(n.ast.value))]
+        good = len(flags) >= 1 and bool(commas) and len(vloops) == 1
+        why = "flag %s, %d joining statement(s)" % (flags, len(commas))
+        if good:
+            F = flags[-1]
+            lp = vloops[0]
+            defs = [n for n in hg.nodes if n.kind == "stmt" and isinstance(n.ast, ast.Assign) and any(isinstance(t, ast.Name) and t.id == F for t in n.ast.targets)]
+            in_loop = lambda n: hg.dominates(lp, n) and hg.reaches(n, lp, skip_kinds=("exc",)) and n.id != lp.id
+            consts = all(isinstance(d.ast.value, ast.Constant) and isinstance(d.ast.value.value, bool) for d in defs)
+            falses = [d for d in defs if consts and d.ast.value.value is False]
+            trues = [d for d in defs if consts and d.ast.value.value is True]
+            guards = lambda n: sorted(set((t, p) for t, p, _ in atoms_at(hg, n)))
+            good = consts and bool(falses) and all(not in_loop(d) for d in falses) and bool(trues) \
+                and all(any(guards(d) == guards(c0) for c0 in commas) for d in trues) \
+                and all(any(guards(d) == guards(c0) for d in trues) for c0 in commas)
+            why = "%s: %d definitions (%s), joins %d" % (F, len(defs), "constants" if consts else "computed", len(commas))
+        rep.check(good, "VAL-3", "brackets iff two value texts were joined", why,
+                  "the bracket flag does not follow the joins (%s): a single value containing a comma gets brackets and is split on load, or a "
+                  "joined list gets none" % why, where(hp, w.ast),
+                  witness="a Property with an empty value element and one value 'Smith, John': loads as two values")
+
     # ----------------------------------------------------------------- SRC-1
     rep.rule("SRC-1", "every open() in version_converter.py on self.filename is read mode; the only write-mode open is in write_to_file on "
                       "its `filename` parameter (after the extension fix) and follows the rendering (ORDER-1)")
@@ -317,6 +401,27 @@ def run(prog, rep):
                 fn.startswith(("os.remove", "os.rename", "os.unlink", "shutil.")) else None
     compute_before_open(prog, rep, [vc.lookup_method("write_to_file")], "ORDER-1")
     rep.assume("lxml element iteration tolerates removal of the current child (probed: the next sibling is pre-fetched)")
+
+
+def count_map_rule(prog, rep, rule="MAP-2"):
+    """_change_entity_name: first occurrence stores 1, every later one stores the incremented count (a count that is only read gives
+    every repeated name the same suffix, and the reader drops all but one of the equally named siblings)."""
+    rep.rule(rule, "VersionConverter._change_entity_name: every normal path stores into <count map>[<key>] (a plain store or an augmented one)")
+    ce = prog.cls("VersionConverter").lookup_method("_change_entity_name")
+    if ce is None:
+        raise AnalysisError("VersionConverter._change_entity_name vanished")
+    rep.saw_function(ce)
+    g = build_cfg(ce)
+    off = 1 if ce.has_self else 0
+    cmap = ce.params[off + 1]
+    stores = set(n.id for n in g.nodes if n.kind == "stmt" and isinstance(n.ast, (ast.Assign, ast.AugAssign))
+                 and any(isinstance(t, ast.Subscript) and unparse(t.value) == cmap
+                         for t in (n.ast.targets if isinstance(n.ast, ast.Assign) else [n.ast.target])))
+    ok = bool(stores) and not reach_avoiding(g, g.entry, g.exit, lambda s0, k0, d0: d0.id in stores, skip_kinds=("exc",))
+    rep.check(ok, rule, "_change_entity_name counts every occurrence", "a store into %s on every path" % cmap,
+              "_change_entity_name can return without storing into %s: the count of a repeated name stops growing and the third, fourth ... "
+              "sibling get the suffix of the second" % cmap, ce.where,
+              witness="three sibling Sections named 'x' in a 1.0 file: x, x-2, x-2 - the reader drops the third")
 
 
 def _blocks(fnode):
